@@ -20,7 +20,7 @@ LEVEL_TEXT = ("Seeded exploration; pDESy's PERT values are compared with an inde
 LEVEL_NOTE = "Trusted: the 25-line reference CPM in this module; sampling evidence only."
 PROBES = ["updates_checked", "cpl_grew_while_waiting", "multi_tail", "multi_head", "finished_task_in_network", "extra_update_calls",
           "zero_remaining_task", "backward_prelude", "values_after_return_checked", "second_workflow_over_same_tasks",
-          "standalone_update_on_fresh_workflow"]
+          "standalone_update_on_fresh_workflow", "restored_from_json_checked", "reinitialized_checked"]
 
 
 def budget(tier):
@@ -39,6 +39,10 @@ def gen(rng, tier):
         spec["second_workflow"] = True
     if rng.random() < 0.12:
         spec["standalone_t"] = rng.randint(0, 9)
+    if rng.random() < 0.12:
+        spec["json_after"] = True
+    if rng.random() < 0.12:
+        spec["reinit"] = rng.choice(["project_log_kept", "workflow_log_kept", "project"])
     if rng.random() < 0.2:
         for t in spec["model"]["tasks"]:
             if rng.random() < 0.7:
@@ -49,7 +53,7 @@ def gen(rng, tier):
 
 
 def extra_candidates(spec):
-    for k in ("prelude", "second_workflow", "standalone_t"):
+    for k in ("prelude", "second_workflow", "standalone_t", "json_after", "reinit"):
         if spec.get(k) is not None:
             c = dict(spec)
             c.pop(k)
@@ -208,7 +212,40 @@ def run(spec):
         sn = D.snapshot(tr.ix)
         res.count("values_after_return_checked")
         compare(res, st, sn["T"], sn["cpl"], t0, "values left by simulate() (time %d)" % t0)
-        if spec.get("second_workflow"):
+        if spec.get("json_after"):
+            # the network read back from a file is the same network: a PERT update on the restored project matches the
+            # reference over the *model's* edges (whatever order the tasks are listed in)
+            new, ow, orr = scen.save_load(tr.project, "mem:c12.json", spec.get("ranks"))
+            if new is not None:
+                res.count("restored_from_json_checked")
+                tt = t0 + (spec.get("extra_t") or [0])[0]
+                r = D.Recorder(new, want_snap=False)
+                r.own_call = True
+                o = D.call(lambda: new.workflow.update_PERT_data(tt), r)
+                if o.ok:
+                    sn = D.snapshot(D.index(new))
+                    pre = C.campaign.Result()
+                    compare(pre, st, sn["T"], sn["cpl"], tt, "update_PERT_data(%d) on the project restored from JSON" % tt)
+                    for v in pre.violations:
+                        res.add(v["clause"], v["key"] + ".restored_from_json", v["msg"], v["step"])
+        if spec.get("reinit") is not None:
+            # initialize() with any flag combination that resets the state leaves a freshly initialized workflow: PERT for time 0
+            how = spec["reinit"]
+            res.count("reinitialized_checked")
+            if how == "project_log_kept":
+                o = D.call(lambda: tr.project.initialize(state_info=True, log_info=False))
+            elif how == "workflow_log_kept":
+                o = D.call(lambda: wf.initialize(state_info=True, log_info=False))
+            else:
+                o = D.call(lambda: tr.project.initialize())
+            if o.ok:
+                sn = D.snapshot(tr.ix)
+                pre = C.campaign.Result()
+                compare(pre, st, sn["T"], sn["cpl"], 0, "after %s" % {"project_log_kept": "project.initialize(state_info=True, log_info=False)",
+                                                                        "workflow_log_kept": "workflow.initialize(state_info=True, log_info=False)"}.get(how, "project.initialize()"))
+                for v in pre.violations:
+                    res.add(v["clause"], v["key"] + ".after_initialize", v["msg"], v["step"])
+        if spec.get("second_workflow") and spec.get("reinit") is None:
             # the same task objects are also registered in a second workflow (a what-if project over the same tasks);
             # PERT of the first workflow is a function of its task_list and the links only
             res.count("second_workflow_over_same_tasks")
